@@ -236,9 +236,10 @@ def run(ctx):
         ctx.notes["canary"] = "stand-in constants did not take effect: the clauses were NOT exercised"
     ctx.traces += len(cases)
     ctx.sample({k: cases[0][k] for k in ("c", "k", "fg", "f2l", "rj", "hz2m")})
-    res = ctx.tlc(d, "SnellProps", "MCSnell.cfg", workers=1, timeout=600)
+    big = ctx.tier != "quick"
+    res = ctx.tlc(d, "SnellProps", "MCSnellBig.cfg" if big else "MCSnell.cfg", workers=1, timeout=1500)
     scases = list(res.tagged("CASE"))
-    if len(scases) != 968 or not any(c["reflected"] for c in scases) or sum(1 for c in scases if c["brewster"] and c["hasp2"]) < 4:
+    if len(scases) != (26 * 26 * 20 if big else 968) or not any(c["reflected"] for c in scases) or sum(1 for c in scases if c["brewster"] and c["hasp2"]) < 4:
         raise MachineryError("unexpected snell catalogue")
     pmap(ctx, replay_snell, [scases], procs=1)
     ctx.traces += len(scases)
